@@ -348,7 +348,7 @@ def live_sessions(run, thorough):
                                          rng.random() < 0.3):
             # more than one write batch (300 packets) still queued when the
             # flushing disconnect comes
-            n = (301, 700, 300, 450, 299)[(ci // len(LIVE_MODES)) % 5]
+            n = (301, 1500, 300, 450, 299)[(ci // len(LIVE_MODES)) % 5]
             run.count('live_sessions_over_one_write_batch', int(n > 300))
         k = rng.randrange(0, min(n, 12))
         from_listener = rng.random() < 0.6 or mode != 'none'
@@ -484,6 +484,7 @@ def live_sessions(run, thorough):
     run.require('live_sessions', 1)
     run.require('live_sessions_over_one_write_batch', 1)
     live_incoming(run, thorough)
+    compression_switch_during_write(run, thorough)
 
 
 def live_incoming(run, thorough):
@@ -614,3 +615,88 @@ def live_incoming(run, thorough):
                               w, exc=repr(rec.exceptions[:1])))
     run.require('live_in.sessions', 2)
     run.require('live_in.empty_collections', 2)
+
+
+def compression_switch_during_write(run, thorough):
+    """Directed schedule: a forced write from a user thread is held in an
+    early outgoing listener while the networking thread processes the
+    server's Set Compression (protocol 47 switches in play state).  When the
+    packet finally goes out, compression *is* in force, so the frame must be
+    in the compressed format - the framing state that counts is the one at
+    the moment of writing."""
+    import threading
+    from minecraft.networking import connection as C
+    from minecraft.networking.packets import serverbound
+    from ..ref import varint as rv
+    rng = run.rng('c01-switch')
+    pv = 47
+    codec = codec_for(pv)
+    for ci in range(12 if thorough else 3):
+        if not run.mine(300000 + ci):
+            continue
+        threshold = (0, 64, 256)[ci % 3]
+        entered, switched = threading.Event(), threading.Event()
+        state = {'got': [], 'done': False}
+
+        def handler(io, threshold=threshold, state=state, entered=entered,
+                    switched=switched):
+            scripts.read_handshake(io)
+            scripts.login_offline(io, pv, threshold=None, codec=codec)
+            entered.wait(8.0)
+            io.send_frame(0x46, rv.encode(threshold))
+            io.enable_compression(threshold)
+            switched.set()
+            while True:
+                fr = io.recv_frame(8.0)
+                if fr is None:
+                    break
+                name, vals = codec.decode('play', fr[0], fr[1])
+                state['got'].append((vals.get('message') if name == 'sb_chat'
+                                     else '<%s>' % name, fr[2]['compressed']))
+            state['done'] = True
+        server = mcserver.Server(handler)
+        rec = pc.Recorder()
+        conn = pc.make_connection(server.port, rec, allowed_versions={pv})
+        msg = 'm' * rng.choice((3, 80, 200))
+        held = []
+
+        def hold(packet):
+            if not held:
+                held.append(1)
+                entered.set()
+                pc.wait_for(lambda: conn.options.compression_enabled, 8.0)
+        conn.register_packet_listener(hold, serverbound.play.ChatPacket,
+                                      outgoing=True, early=True)
+        w = {'live': 'compression-switch-during-forced-write', 'pv': pv,
+             'threshold': threshold, 'message_len': len(msg)}
+        try:
+            conn.connect()
+            if not pc.wait_for(lambda: isinstance(conn.reactor,
+                                                  C.PlayingReactor), 8.0):
+                run.inconclusive_because('switch case: never reached play')
+                continue
+            conn.write_packet(serverbound.play.ChatPacket(message=msg),
+                              force=True)
+            pc.wait_for(lambda: state['got'], 5.0)
+            pc.safe_disconnect(conn)
+            pc.wait_idle(conn, 10.0)
+            server.join(10.0)
+        finally:
+            server.stop()
+        run.case(('switch', ci))
+        if [e for e in server.errors if e[1] == 'script'] or \
+                not switched.is_set():
+            run.inconclusive_because('switch case: %r' % (server.errors[:1],))
+            continue
+        run.count('live.compression_switched_during_a_write')
+        if [e for e in server.errors if e[1] == 'frame']:
+            run.violation('live/framing-state-sampled-early', 'a packet written'
+                          ' after compression had come into force is not in '
+                          'the compressed format', dict(
+                              w, error=server.errors[0][2]))
+        elif [m for m, _c in state['got']] != [msg]:
+            run.violation('live/sequence/compression-switch', 'the packet '
+                          'written across the switch did not arrive intact',
+                          dict(w, got=[(m or '')[:12] for m, _c in
+                                       state['got']]))
+    run.require('live.compression_switched_during_a_write', 1)
